@@ -271,3 +271,54 @@ Example C04_zone_kinds_nonempty :
   smem "Zone_t" (sound_kinds delete_table not_deletable goto_table "CGNSBase_t") = true /\
   negb (smem "Sol1" (reserved_names delete_table not_deletable "Zone_t")) = true.
 Proof. vm_compute. repeat split; reflexivity. Qed.
+
+(* 9. Links.  OLink kind name id = cg_link_write followed by cg_close + cg_open; the payload of a link child is its IDENTITY
+      (the pair (file, path) cg_link_read reports -- an opaque value), never what lies behind it.  It is an operation of the
+      histories of C04_content / C04_frame / C04_order above; spelled out for one link: whatever is done to its siblings
+      afterwards -- writes, overwrites, in-place rewrites, deletions, further links, any number of cg_close + cg_open with
+      or without the rewrite of the file (compress-on-close) -- the session and a fresh open still report that identity. *)
+Theorem C04_link_identity_survives : forall kok nok sk disp ops s0 t0 k nm p,
+  Inv kok s0 -> Rel s0 t0 -> disp_ok kok nok disp -> ops_ok kok nok (OLink k nm p :: ops) -> writes_ok t0 (OLink k nm p :: ops) ->
+  i_get nm t0 = None -> Forall (fun o => op_name o <> Some nm) ops ->
+  let s := fst (run sk disp s0 (OLink k nm p :: ops)) in
+  vlookup nm (view_session s k) = Some p /\ vlookup nm (view_file sk s k) = Some p /\
+  vlookup nm (view_session (reopen sk s) k) = Some p.
+Proof. exact link_survives. Qed.
+Print Assumptions C04_link_identity_survives.
+
+(* ... cg_link_write WITHOUT the cg_close + cg_open does not have the property (it updates the file only): the session
+   does not list the new link, and cg_delete_node of it reports an error after removing the node.  Replayed on the library:
+   key link-invisible-until-reopen *)
+Theorem C04_link_invisible_until_reopen_refuted :
+  let s := fst (link_new (fst (fst (write empty_parent K_SOL "S1" 3))) K_SOL "L1" (-1)) in
+  view_session s K_SOL = [("S1", 3)] /\ view_file no_sort s K_SOL = [("S1", 3); ("L1", -1)] /\
+  view_session (reopen no_sort s) K_SOL = [("S1", 3); ("L1", -1)] /\
+  snd (delete all_shift s "L1") = 1 /\ view_file no_sort (fst (delete all_shift s "L1")) K_SOL = [("S1", 3)].
+Proof. exact link_invisible_in_session. Qed.
+Print Assumptions C04_link_invisible_until_reopen_refuted.
+
+(* ... the CURRENT cg_link_write is what [link_new] transcribes: it calls cgio_create_link, counts the node and changes
+   nothing else; the labels of its white list are positions cg_goto reaches *)
+Theorem C04_link_writer_consistent : link_writer_ok goto_table link_parents link_calls link_assigns = true.
+Proof. vm_compute. reflexivity. Qed.
+Print Assumptions C04_link_writer_consistent.
+
+(* ... and the CURRENT tree copy behind compress-on-close creates every link again as a link (so [reopen] is the right model
+   of cg_close with and without compress): the guard of cgio_create_link in recurse_nodes, evaluated for every combination *)
+Theorem C04_compress_keeps_links : copy_keeps_links copy_link_guard copy_else_recurses copy_callers = true.
+Proof. vm_compute. reflexivity. Qed.
+Print Assumptions C04_compress_keeps_links.
+
+(* 10. OUpdate on an array whose data the library loaded when it opened the file (cg_array_general_write on a DataArray_t under
+       ReferenceState_t, BaseIterativeData_t, ... -- every parent whose arrays cgi_read_array reads into memory): C04_content
+       holds for it exactly when the call refreshes (or drops) that copy.  A library that leaves the copy alone
+       ([write_inplace_stale]) diverges: the session answers the old value, the file holds the new one.  Replayed on the
+       library: key array-general-write-stale-cache; Gen_C04.general_write_mentions_cache says which of the two the current
+       cgi_array_general_write is, and the check demands that the replay agrees with it. *)
+Theorem C04_cached_array_not_refreshed_diverges :
+  let s0 := reopen no_sort (fst (fst (write empty_parent "DataArray_t" "A1" 5))) in
+  let s := fst (fst (write_inplace_stale s0 "DataArray_t" "A1" 7)) in
+  view_session s "DataArray_t" = [("A1", 5)] /\ view_file no_sort s "DataArray_t" = [("A1", 7)] /\
+  view_session (fst (fst (write_inplace s0 "DataArray_t" "A1" 7))) "DataArray_t" = [("A1", 7)].
+Proof. exact stale_cache_diverges. Qed.
+Print Assumptions C04_cached_array_not_refreshed_diverges.
